@@ -170,6 +170,12 @@ func runC17(ctx *Ctx) *Report {
 			}
 		}
 	}
+	for bi, name := range []string{"deep", "wide", "many-roots", "long-names"} {
+		doc := spell(bigShapes()[name], coveringSpellings()[bi])
+		for mi, mode := range []string{"text", "json", "dry"} {
+			cases = append(cases, wasmCase{Kind: "wasm", Mode: mode, Fmt: allFormats()[(bi+mi)%len(allFormats())], Exts: []string{".go"}, Doc: hx(doc), Text: "<" + name + ">"})
+		}
+	}
 	// rows around bufio's 64 KiB token limit: both variants must make the same decision
 	for _, n := range []int{65535, 65536, 70000, 200000} {
 		d := "- " + strings.Repeat("x", n-2) + "\n- b\n"
